@@ -1141,3 +1141,16 @@ def _b2(chk: Check, n_runs, n_flows, label):
             chk.nontrivial(("flow", label, i))
     if traces:
         chk.sample({"binding": "B2 trace of one flow", "target": traces[0][0], "events": traces[0][1][:5]})
+
+
+# ---- growth beyond the listed property: the local asset repository that gets "first bite" at asset
+# ---- requests in _handle_request (one of this property's raise points) -- AssetRepo.tla
+_run_flows = run
+
+
+def run(chk):
+    _run_flows(chk)
+    from . import growth_assetrepo
+    growth_assetrepo.section(chk, 2, 6 if chk.tier == "quick" else 8)
+    chk.cov["rule"] += ("  AssetRepo: every edge of the bounded model (create permanent/one-shot asset, clock, requests through asset and "
+                        "other caps with good/bad id parameters) replayed into HTTPAssetRepo with a virtual clock.")
